@@ -1,16 +1,35 @@
 #!/bin/bash
-# verify_seeded.sh <name>: checks that /verif/seeded/<name>/patch.diff applies to /repo's HEAD, compiles
-# and passes the stable baseline suite, in a scratch worktree that is removed afterwards.
+# verify_seeded.sh <name>: in a scratch worktree of /repo's HEAD (removed afterwards)
+#  1. /verif/seeded/<name>/patch.diff applies and the workspace builds,
+#  2. the stable baseline suite passes with it (tools/baseline.sh, guard off),
+#  3. the demonstration (demo.rs, appended to the file its header names) is run with and without the
+#     change; both outputs go to /verif/seeded/<name>/verify.txt for comparison.
 set -u
 N="$1"
-P=/verif/seeded/$N/patch.diff
+D=/verif/seeded/$N
+P=$D/patch.diff
 W=/tmp/vs-$N
+export CARGO_NET_OFFLINE=true
+unset RUSTFLAGS
 git -C /repo worktree remove --force "$W" 2>/dev/null
 git -C /repo worktree add -q --detach "$W" HEAD || exit 2
 if ! git -C "$W" apply "$P"; then echo "APPLY-FAILED"; git -C /repo worktree remove --force "$W"; exit 2; fi
+{
+echo "== baseline with the change (guard off)"
 REPO_DIR="$W" /verif/tools/baseline.sh
-rc=$?
+echo "baseline rc=$?"
+if [ -f "$D/demo.rs" ]; then
+  T=$(grep -o 'saito-[A-Za-z0-9_/.-]*\.rs' "$D/demo.rs" | head -1)
+  F=$(grep -o 'c[0-9][0-9][a-z0-9_]*_demo' "$D/demo.rs" | head -1)
+  echo "== demonstration: appended to $T, filter ${F:-_demo}"
+  cat "$D/demo.rs" >> "$W/$T"
+  echo "-- WITH the change"
+  (cd "$W" && timeout 1800 cargo test --offline -p "${T%%/*}" --lib -- "${F:-_demo}" --nocapture --test-threads 1 2>&1 | grep -v "^warning\|^ *|\|^ *=\|^ *-->\|^$" | tail -60)
+  git -C "$W" apply -R "$P"
+  echo "-- WITHOUT the change"
+  (cd "$W" && timeout 1800 cargo test --offline -p "${T%%/*}" --lib -- "${F:-_demo}" --nocapture --test-threads 1 2>&1 | grep -v "^warning\|^ *|\|^ *=\|^ *-->\|^$" | tail -60)
+fi
+} > "$D/verify.txt" 2>&1
 git -C /repo worktree remove --force "$W"
 git -C /repo worktree prune
-echo "verify_seeded $N rc=$rc"
-exit $rc
+grep -E "baseline rc|REGRESSIONS|test result|VERDICT|panicked" "$D/verify.txt" | head -20
